@@ -663,7 +663,7 @@ package transport
 //@ trusted fmt.Fprintf(w, format, a) (n, err)
 //@   nopanic
 //@   pure
-//@ func (*multipartResponseAggregator).flush [C12]
+//@ func (*multipartResponseAggregator).flush [C12,C13]
 //@   requires a != nil
 //@   ghost held = false
 //@   ghost lastFinal = false
@@ -682,7 +682,7 @@ package transport
 //@   ensures calls(writeJson) <= 1 && calls(writeIncrementalJson) <= 1
 //@   ensures calls(writeJson) + calls(writeIncrementalJson) >= 1 ==> calls(Flush) == 1 && a.initialResponse == nil && len(a.deferResponses) == 0
 //@   ensures calls(Lock) == 1 && calls(Unlock) == 1
-//@ func (*multipartResponseAggregator).Add [C12]
+//@ func (*multipartResponseAggregator).Add [C12,C13]
 //@   safe
 //@   requires a != nil
 //@   ghost held = false
@@ -695,6 +695,10 @@ package transport
 // Representation invariant r.i >= 0. Read never panics, advances the cursor by exactly the number of bytes it
 // reports and leaves it non-negative; Seek rejects negative positions (also when the addition wraps around) and
 // otherwise moves the cursor exactly to the returned position; only r.i is ever written.
+//@ trusted fmt.Errorf(format, a) (err)
+//@   ensures err != nil
+//@   nopanic
+//@   pure
 //@ trusted errors.New(text) (err)
 //@   ensures err != nil
 //@   nopanic
